@@ -177,7 +177,9 @@ def run(ctx):
         "unchecked_obligations": ob_failed,
         "evaluations": evaluations,
         "distinct_nontrivial": int(meta.get("nontrivial", evaluations)),
-        "rule": "see 'exhaustive' and 'distribution'; direct runs through verif hooks (scases: all statuses 100-599 x methods; hcases: all "
+        "rule": "distinct_nontrivial = distinct rendered cases that are non-trivial: scases classified header-only/chunk/event-stream; hcases with "
+                "a header field or a declared trailer; fcases with at least one flush; gcases with a non-empty body; ecases with >= 2 completed "
+                "exchanges on the connection; tcases with at least one measured delivery. See 'exhaustive_parts' and 'distribution'; direct runs through verif hooks (scases: all statuses 100-599 x methods; hcases: all "
                 "statuses x header sets x declared trailers; fcases: exhaustive small write sequences + event/chunk streams; gcases: "
                 "Response.Write behind the real flush writer) and end-to-end runs through forwarder.NewHTTPProxy",
         "traces_validated_against_impl": evaluations,
